@@ -387,6 +387,30 @@ def run_c04(ctx, rng, job):
                     ctx.violation('lookup1-differs', {'registry': li, 'required': nm(lreq), 'provided': nm(lprov), 'name': lname})
             asked.append((li, lreq, lprov, lname, exp))
             del asked[:-12]
+        if rng.random() < 0.06 and asked:
+            # a registry rebuilds itself in place (rebuild()), then changes as often as it takes to bring its change
+            # counter back to where it was; nothing is looked up in between.  The remembered keys are then asked of
+            # every registry again (a verifying registry below must not mistake the counter for "nothing happened").
+            rb = rng.randrange(len(w.regs))
+            g0 = getattr(w.regs[rb], '_generation', None)
+            ctx.op('rebuild', rb)
+            w.regs[rb].rebuild()
+            g1 = getattr(w.regs[rb], '_generation', None)
+            ctx.count('rebuilds_between_lookups')
+            n_more = (g0 - g1) if isinstance(g0, int) and isinstance(g1, int) and 0 < g0 - g1 <= 6 else rng.randint(1, 2)
+            for _m in range(n_more):
+                (kreq, kprov, kname) = rng.choice(list(w.adapters[rb])) if w.adapters[rb] and rng.random() < 0.5 else w.rand_key()
+                w.register(rb, kreq, kprov, kname, w.newval())
+            for (li, lreq, lprov, lname, before) in asked:
+                exp, info = w.m_lookup(li, lreq, lprov, lname)
+                dflt = object()
+                got = w.regs[li].lookup(lreq, lprov, lname, dflt)
+                ctx.ev()
+                ok = (got is dflt) if exp == [None] else any(got is e for e in exp)
+                if not ok:
+                    ctx.violation('lookup-wrong-after-rebuild', {'registry': li, 'rebuilt': rb, 'required': nm(lreq), 'provided': nm(lprov),
+                                                                 'name': lname, 'got': repr(got) if got is not dflt else 'default',
+                                                                 'expected_one_of': repr(exp)})
         if rng.random() < 0.25 and asked:
             # "all interface/class hierarchies": the hierarchy of the looked-up specifications changes between two
             # lookups of the same key (class declaration, object declaration, re-basing of a required interface);
